@@ -190,6 +190,17 @@ def run(ctx):
         cuts = sorted(ctx.rng.randint(0, C) for _ in range(P - 1))
         comp = [b - a for a, b in zip([0] + cuts, cuts + [C])]
         A.append({'scores': scores, 'best': comp, 'kind': 'reassign:seeded-up-to-4x8'})
+    # tied scores (the one-hot matrix the refinement itself writes, coefficients on a coarse grid): the counts must be met whatever
+    # the ties; judged by the oracle only (which channel moves is not determined, so the model is not compared)
+    for _ in range(200 if ctx.quick else 3000):
+        P, C = ctx.rng.randint(2, 4), ctx.rng.randint(3, 8)
+        if ctx.rng.random() < 0.5:
+            own = [ctx.rng.randrange(P) for _c in range(C)]
+            scores = [[1 if own[c] == p else 0 for c in range(C)] for p in range(P)]
+        else:
+            scores = [[ctx.rng.randint(0, 2) for _c in range(C)] for _p in range(P)]
+        cuts = sorted(ctx.rng.randint(0, C) for _ in range(P - 1))
+        A.append({'scores': scores, 'best': [b - a for a, b in zip([0] + cuts, cuts + [C])], 'kind': 'reassign:tied-scores', 'tied': True})
     for c in A:
         try:
             c['impl'] = impl_reassign(torch, utils, c['scores'], c['best'])
@@ -238,9 +249,17 @@ def run(ctx):
                 (64, (2, 4, 8), 'conv3', None, {'freeze': True}), (64, (2, 4, 8), 'conv3', (30, 20, 14), {'freeze': True, 'hard_softmax': True}), (32, (2, 4, 8), 'conv3only', (20, 12, 0), {'freeze': True, 'hard_softmax': True}), (32, (2, 4, 8), 'conv3only', (20, 12, 0), {'freeze': True}), (64, (2, 4, 8), 'res', None, {'freeze': True, 'disable_shared_quantizers': True})]
     optioned += [(64, (2, 4, 8), 'conv3', None, {'call': 'no_grad'}), (32, (2, 4, 8), 'conv3only', (20, 12, 0), {'call': 'no_grad'}), (40, (2, 4, 8), 'conv3', None, {'call': 'no_grad', 'temperature': 5.0}),
                  (64, (0, 2, 4, 8), 'conv3only', (8, 0, 20, 36), {'call': 'no_grad'}), (64, (2, 4, 8), 'dw', None, {'call': 'no_grad', 'disable_shared_quantizers': True})]
+    optioned += [(64, (2, 4, 8), 'conv3', None, {'gumbel_softmax': True, 'gumbel_off': True}), (32, (2, 4, 8), 'conv3only', (20, 12, 0), {'gumbel_softmax': True, 'gumbel_off': True}),
+                 (48, (0, 2, 4, 8), 'conv3', None, {'gumbel_softmax': True, 'gumbel_off': True, 'temperature': 2.0}),
+                 (64, (2, 4, 8), 'conv3', None, {'passes': 2}), (48, (2, 4, 8), 'conv3only', (15, 9, 24), {'passes': 2}), (72, (2, 4, 8), 'conv3only', (7, 32, 33), {'passes': 2}),
+                 (64, (2, 4, 8), 'conv3pair', None, {'passes': 2}), (40, (2, 4, 8), 'conv3', None, {'passes': 2}), (64, (0, 2, 4, 8), 'conv3', None, {'passes': 2})]
     if not ctx.quick:
         for _ in range(24):
             o = {}
+            if ctx.rng.random() < 0.25:
+                o['passes'] = 2
+            if ctx.rng.random() < 0.2:
+                o.update(gumbel_softmax=True, gumbel_off=True)
             if ctx.rng.random() < 0.25:
                 o['call'] = 'no_grad'
             if ctx.rng.random() < 0.5:
@@ -263,7 +282,7 @@ def run(ctx):
         rec = {'C': C, 'precisions': list(precs), 'kind': kind, 'seed': seed, 'start_counts': counts, 'options': opts, 'layers': {}}
         ascending = list(precs) == sorted(precs)
         try:
-            m = build_mps(torch, C, precs, seed, kind, counts, **{k: v for k, v in opts.items() if k not in ('mode', 'alpha_grid', 'freeze', 'call')})
+            m = build_mps(torch, C, precs, seed, kind, counts, **{k: v for k, v in opts.items() if k not in ('mode', 'alpha_grid', 'freeze', 'call', 'gumbel_off', 'passes')})
             if opts.get('alpha_grid'):
                 # coefficients on a coarse grid (hand-set values, a rounded checkpoint): exact ties, also at the maximum of a channel
                 with torch.no_grad():
@@ -273,7 +292,10 @@ def run(ctx):
                 m.eval()
             if opts.get('freeze'):
                 m.train_net_only()          # the architectural coefficients are frozen (fine-tuning phase) when the refinement runs
-            m.update_softmax_options(hard=True)
+            if opts.get('gumbel_off'):
+                m.update_softmax_options(hard=True, gumbel=False)      # a model searched with Gumbel noise, switched to deterministic sampling for the refinement
+            else:
+                m.update_softmax_options(hard=True)
             m(m._input_example)
             layers = per_channel_layers(m)
             before = {n: chan_prec(l) for n, l in layers.items()}
@@ -331,6 +353,26 @@ def run(ctx):
             oracle(all(d['counts_after'] == d['chosen_by_refinement'] for d in rec['layers'].values()), 'refine-counts-differ-from-chosen' + key_sfx, info)
             oracle(all(d['counts_evaluated_after'] == d['counts_after'] for d in rec['layers'].values()), 'refined-model-evaluates-other-counts-than-it-holds' + key_sfx, info)
             oracle(math.isfinite(c1) and c1 <= c0 * (1 + 1e-6), 'refine-raises-cost' + key_sfx, info)
+            if opts.get('passes', 1) > 1:
+                # the refinement applied again to its own result (the one-hot coefficients it wrote: all scores of a precision tied)
+                buf2 = io.StringIO()
+                with contextlib.redirect_stdout(buf2):
+                    utils.optimize_prec_assignment(m, 'ne16')
+                m(m._input_example)
+                after2 = {n: chan_prec(l) for n, l in layers.items()}
+                c2 = float(m.get_cost('ne16'))
+                chosen2 = {}
+                for mt in re.finditer(r"\* Layer '([^']+)' cost decreased.*?\n\tprecisions: (\[.*?\])\n\toriginal:\s+(\[.*?\])\n\tnew:\s+(\[.*?\])", buf2.getvalue()):
+                    chosen2[mt.group(1)] = [int(round(float(x))) for x in mt.group(4).strip('[]').split(',')]
+                second = {}
+                for n in layers:
+                    ps = tables[n][1]
+                    second[n] = {'counts_before': [after[n].count(p_) for p_ in ps], 'counts_after': [after2[n].count(p_) for p_ in ps],
+                                 'chosen_by_refinement': chosen2.get(n, [after[n].count(p_) for p_ in ps]), 'demoted_channels': sum(1 for a_, b_ in zip(after[n], after2[n]) if b_ < a_)}
+                info2 = dict(info, second_pass=second, cost_after_second_pass=c2)
+                oracle(all(d_['demoted_channels'] == 0 for d_ in second.values()), 'refine-demotes-channel:second-pass' + key_sfx, info2)
+                oracle(all(d_['counts_after'] == d_['chosen_by_refinement'] for d_ in second.values()), 'refine-counts-differ-from-chosen:second-pass' + key_sfx, info2)
+                oracle(math.isfinite(c2) and c2 <= c1 * (1 + 1e-6), 'refine-raises-cost:second-pass' + key_sfx, info2)
         except Exception as e:
             import traceback
             rec['exception'] = type(e).__name__ + ': ' + str(e)[:300]
@@ -348,6 +390,7 @@ def run(ctx):
     model_ok = built
     if built:
         try:
+            A_tied, A = [c for c in A if c.get('tied')], [c for c in A if not c.get('tied')]
             ex = ['run_reassign %s %s' % (coq([[Fraction(x) for x in r] for r in c['scores']]), coq([Nat(x) for x in c['best']])) for c in A]
             vals = ctx.coq_eval_sharded('reassign', ['Plinio.Model.Reassign'], '', ex, shard=600)
             # the model GENERATED from mps/utils.py on this run, on the same cases
